@@ -904,6 +904,7 @@ class FitBase(FileIOMixin, object):
             )
         )
         self._fit_param_names_bad_default = self._fit_param_names_bad_default.difference(names)
+        self._nexus.get("parameter_constraints").mark_for_update()  # the cost depends on the constraints
 
     def add_parameter_constraint(self, name, value, uncertainty, relative=False):
         """Apply a simple gaussian constraint to a single fit parameter.
@@ -919,6 +920,7 @@ class FitBase(FileIOMixin, object):
             raise ValueError("Unknown parameter name: %s" % name) from _e
         self._fit_param_constraints.append(GaussianSimpleParameterConstraint(index=_index, value=value, uncertainty=uncertainty, relative=relative))
         self._fit_param_names_bad_default.discard(name)
+        self._nexus.get("parameter_constraints").mark_for_update()  # the cost depends on the constraints
 
     def get_matching_errors(self, matching_criteria=None, matching_type="equal"):
         """Return a list of uncertainty objects fulfilling the specified matching criteria.
